@@ -154,6 +154,17 @@ func checkAssumption(a parseAsm) (bool, string) {
 }
 
 func init() {
+	families["lawfail"] = func(w *worker, inner []byte) {
+		var c struct {
+			Law string `json:"law"`
+			S   []int  `json:"s"`
+		}
+		json.Unmarshal(inner, &c)
+		w.count("lawfail:"+c.Law, 1)
+		if len(w.res.Samples) < 3 {
+			w.res.Samples = append(w.res.Samples, "model law "+c.Law+" failed for "+cps(c.S))
+		}
+	}
 	families["parse"] = func(w *worker, inner []byte) {
 		var c parseCase
 		if err := json.Unmarshal(inner, &c); err != nil {
